@@ -16,7 +16,7 @@ CLAIMED = {
          "DESIGN.md 4/C01"),
  "C05": ("exploration",
          ENUM + ": all 86 definitions vs a hand-written standards table, all 9480 vocabulary words vs an independent segmentation over data.toml names, generated unit expressions vs the stated semantics",
-         "Complete enumerations (every unit definition against accepted standard scales, also under the powers -3..3 / -6..6 so a dimension table that is only right at power one is caught; every typable [prefix]name word: an accepted reading must be a documented segmentation and both entry points must agree; every bare unit name must denote its own variant) plus generated unit expressions with juxtaposition, blanks, * / ^n compared by a membership search over documented segmentations. The vocabulary is finite, so the first three parts settle it; expressions are sampled.",
+         "Complete enumerations (every unit definition against accepted standard scales, also under the powers -3..3 / -6..6 so a dimension table that is only right at power one is caught; every typable [prefix]name word: an accepted reading must be a documented segmentation and both entry points must agree; every bare unit name must denote its own variant) plus generated unit expressions with juxtaposition, blanks, * / ^n compared by a membership search over documented segmentations; 27 exponent spellings and 14 unit numbers on every unit (refused, or read with the exact value). The vocabulary is finite, so the first three parts settle it; expressions are sampled.",
          "Trusts the hand-written standards table (deliberately generous accepted-scale sets) and tools/gen/data.toml as the documentation of names. Words at lexer backtracking positions are excluded from the generated sub-check (known finding), counted in evidence.",
          "DESIGN.md 4/C05"),
  "C06": ("exploration",
@@ -41,13 +41,13 @@ CLAIMED = {
          "DESIGN.md 4/C10"),
  "C12": ("exploration",
          ENUM + ": all strings up to length 4 (quick) / 6 (thorough) over a 40-symbol alphabet; tokens must tile the input and equal the parse tree's leaves",
-         "All 40^k strings for k <= 4 (quick; plus 20^5) or k <= 6 (thorough) and random longer / arbitrary Unicode strings: lexer terminates, tokens non-empty, contiguous, on char boundaries, covering the input; parse_root succeeds and its leaves are exactly the tokens (start, end, kind).",
+         "All 40^k strings for k <= 4 (quick; plus 20^5) or k <= 6 (thorough) and random longer / arbitrary Unicode strings: lexer terminates, tokens non-empty, contiguous, on char boundaries, covering the input; parse_root succeeds and its leaves are exactly the tokens (start, end, kind); plus huge-token families (2^16..2^17 bytes, up to 65 000 tokens) and an alignment sweep (runs of 0..130 token characters followed by each of 13 multi-byte characters).",
          "Uses the doc-hidden public modules anything::syntax::{lexer,parser}; a watchdog turns non-termination into exit 2 (inconclusive) and a token-count limit into a violation.",
          "DESIGN.md 4/C12"),
 
  "C02": ("exploration",
          PBT + ": pairs of unit spellings constructed for equal / perturbed dimension vectors vs a hand-written dimension table and exact factor arithmetic",
-         "Commensurable pairs are built by construction (free first spelling; second = random derived units plus the residual in base units, which reaches spellings whose base powers cancel: J/N, V*A, C/s), incommensurable pairs by perturbing the dimension; forms + - to and the plain-number forms in both operand orders; success iff the reference dimensions are equal, exact value, result unit checked for casts and plain-number forms.",
+         "Commensurable pairs are built by construction (free first spelling; second = random derived units plus the residual in base units, which reaches spellings whose base powers cancel: J/N, V*A, C/s), incommensurable pairs by perturbing the dimension; forms + - to and the plain-number forms in both operand orders; success iff the reference dimensions are equal, exact value, result unit checked for casts and plain-number forms; also sum chains of three to five terms with leading plain numbers, computed left operands, powers far apart and unit powers at the 32-bit boundary.",
          "Dimensions come from the hand-written table; per-unit factors are the tool's own (observed once with 86 casts, judged by C05). Words the tool does not read as declared are excluded (C05 judges them).",
          "DESIGN.md 4/C02"),
  "C03": ("exploration",
@@ -57,13 +57,13 @@ CLAIMED = {
          "DESIGN.md 4/C03"),
  "C04": ("exploration",
          PBT + ": expression trees over quantities vs reference evaluation on (SI value, dimension vector) pairs, result normalised through the Compound mirror",
-         "Trees with * / ^n (n -3..3) over compound, derived, prefixed, powered and cancelling unit leaves; the tool's result, whatever unit it displays, is normalised by the harness's own arithmetic and must have exactly the reference SI value and dimension; no unit entry with power zero; division by a zero quantity and 0^-n must be errors.",
+         "Trees with * / ^n (n -3..3) over compound, derived, prefixed, powered and cancelling unit leaves; the tool's result, whatever unit it displays, is normalised by the harness's own arithmetic and must have exactly the reference SI value and dimension; no unit entry with power zero; division by a zero quantity and 0^-n must be errors; `(x u^a)^b` around the 32-bit boundary of the unit's power (that power, or an error); exponents that carry a unit are errors.",
          "Trusts the Compound serialisation mirror (serde_cbor) and the observed factor table.",
          "DESIGN.md 4/C04"),
  "C09": ("exploration",
          PBT + ": conversion chains vs the defining affine formulas on exact rationals; not-alone class vs interval conversion or refusal",
-         "Chains of up to four conversions among K, °C, °F (both spellings) must end where K = C + 273.15, C = (F - 32)*5/9 say, exactly; a scale with a power other than one or combined with other units must be refused or converted as an interval, never shifted by a zero point.",
-         "Formulas are written in the harness from the definitions; no prefixes on temperature scales.",
+         "Chains of up to four conversions among K, °C, °F (both spellings) must end where K = C + 273.15, C = (F - 32)*5/9 say, exactly; a scale with a power other than one or combined with other units must be refused or converted as an interval, never shifted by a zero point; products and quotients holding an offset scale must be refused or equal the same expression with every degree read as an interval (a quotient of lone scales may also be the ratio of absolute temperatures); sums of not-alone scales likewise.",
+         "Formulas are written in the harness from the definitions; a prefixed degree is its power of ten degrees (C03's rule).",
          "DESIGN.md 4/C09"),
  "C11": ("exploration",
          PBT + " (token soups, mutated well-formed expressions, ASCII noise, arbitrary Unicode) under a validity predicate, in a debug-assertion and a release build, plus a sample through the real binary",
@@ -72,8 +72,8 @@ CLAIMED = {
          "DESIGN.md 4/C11"),
  "C13": ("exploration",
          PBT + ": metamorphic field laws, both sides evaluated by the tool and compared after SI normalisation; operands include every typable fact phrase",
-         "Seven law instances per generated triple (commutativity, associativity, distributivity, a-a, a/a) over literals with arbitrary unit spellings and facts decoded by the harness from db/*.bin.gz; both sides must be values with equal SI value and dimension.",
-         "Plain numbers and dimensionless quantities carrying a unit are never mixed in one triple (a plain number adopts its partner's unit, which is C02's rule, not a field law).",
+         "Seven law instances per generated triple (commutativity, associativity, distributivity, a-a, a/a) over literals with arbitrary unit spellings and facts decoded by the harness from db/*.bin.gz; both sides must be values with equal SI value and dimension. A second class instantiates the laws over the offset scales (°C, °F, prefixed, inside compounds), degrees compared as intervals, additive laws per scale spelling, plus a^2 = a*a and a^3 = a*a*a.",
+         "Plain numbers and dimensionless quantities carrying a unit are never mixed in one triple (a plain number adopts its partner's unit, which is C02's rule, not a field law). Additive laws are not instantiated across two different temperature scales: a sum converts its right operand by the affine formula (C09), which is not commutative by construction.",
          "DESIGN.md 4/C13"),
  "C14": ("exploration",
          "history-based testing: repeated index builds under varied schedules (threads, CPU pinning, background load) and on-disk/reopen/rebuild sessions, invariant = all sessions agree on every query",
@@ -82,17 +82,17 @@ CLAIMED = {
          "DESIGN.md 4/C14, 6"),
  "C15": ("fault_enumeration",
          "fault injection over generated histories: prior directory state x crash point (cfg-guarded process aborts) x follow-up starts, oracle = answers of a fresh in-memory database and meta.json contents",
-         "All 10 prior states x all 8 named crash points with a completing follow-up are enumerated, plus boundary document counts and 500 (quick) / 6000 (thorough) random histories of up to 4 starts; every completing start must answer like a fresh in-memory database and record {current version, current hash}; a crash that leaves meta.json claiming current must not be followed by a wrong answer.",
-         "Crash = process abort at a hook point between the rebuild steps (hook commit in /repo, cfg anything_verif); torn single writes are modelled only as truncated/garbage meta.json prior states.",
+         "All 10 prior states x all 8 named crash points with a completing follow-up are enumerated, plus boundary document counts and 500 (quick) / 6000 (thorough) random histories of up to 4 starts; every completing start must answer like a fresh in-memory database and record {current version, current hash}; a crash that leaves meta.json claiming current must not be followed by a wrong answer. 64 (quick) / 112 (thorough) further histories really replace the data files the tool reads between starts (same/different byte size and time stamp, with crash points), each child in a private mount namespace with the data bind-mounted over <repo>/db, judged against a fresh in-memory database under the same data.",
+         "Crash = process abort at a hook point between the rebuild steps (hook commit in /repo, cfg anything_verif); torn single writes are modelled only as truncated/garbage meta.json prior states. The data-replacement histories need `unshare -m` and a bind mount (available to root in this sandbox); where they are not, that sub-check is skipped and the evidence says so.",
          "DESIGN.md 4/C15, 7"),
  "C16": ("exploration",
          "exhaustive enumeration of the shipped data (all 777 typable constants, their own word order and permutations) against a validity predicate on the returned constant",
-         "Every typable shipped constant is asked for by its own words (and 12/40 permutations): one value, one description with that phrase, the returned constant carries all asked words, is complete (description, resolvable source) and its value/unit are the result.",
+         "Every typable shipped constant is asked for by its own words (and 12/40 permutations): one value, one description with that phrase, the returned constant carries all asked words, is complete (description; a source id that resolves to the shipped source of that id — id, description, URL) and its value/unit are the result; also against the on-disk first start and reopened sessions, and pairs of constants in one query.",
          "The harness decodes db/*.bin.gz itself; 101 constants whose words cannot be typed (`/`, blanks inside a word) are skipped and counted.",
          "DESIGN.md 4/C16"),
  "C17": ("exploration",
          ENUM + ": all registry units and shipped constants, random compounds/rationals/constants, CBOR and JSON round trips with byte-identical re-encoding",
-         "All 86 units: name -> Compound -> CBOR -> back, the written id equals the id documented in data.toml and a CBOR value hand-built from the documented id decodes to the same unit; every identifier pinned in harness/data/ids_pinned.json (what data written by the pinned build contains) still decodes to the unit of the same name; all 878 shipped constants re-encode and decode equal; random compounds (built from documented ids), 2000-bit rationals (CBOR and JSON) and constants round-trip with identical bytes.",
+         "All 86 units: name -> Compound -> CBOR -> back, the written id equals the id documented in data.toml and a CBOR value hand-built from the documented id decodes to the same unit; every identifier pinned in harness/data/ids_pinned.json (what data written by the pinned build contains) still decodes to the unit of the same name; all 878 shipped constants re-encode and decode equal; every record of sources.bin.gz is reachable by its id in a started database, unchanged; random compounds (built from documented ids), 2000-bit rationals (CBOR and JSON) and constants round-trip with identical bytes.",
          "Stability oracle: the identifier table committed in /verif (harness/data/ids_pinned.json, taken from the pinned tree and cross-checked against the ids inside the shipped data files); tools/gen/data.toml is only the name registry.",
          "DESIGN.md 4/C17"),
  "C18": ("exploration",
@@ -102,7 +102,7 @@ CLAIMED = {
          "DESIGN.md 4/C18"),
  "C19": ("exploration",
          PBT + ": differential test of the `any` binary against the library, byte-for-byte stdout comparison in default and --exact mode",
-         "Queries from the other generators (values, units, pluralisable units with value 1 / not 1, denominator-only units, errors, facts, multi-result, noise) are run through the binary compiled from /repo/src/bin/any.rs; stdout must equal what the harness prints from library results and the exit status must be 0; an exact fraction must be printed in lowest terms with the sign in the numerator; the 12-digit rendering must also satisfy C08's oracle.",
+         "Queries from the other generators (values, units, pluralisable units with value 1 / not 1, runs of results sharing one unit, denominator-only units, errors and lookup failures among several results, facts, multi-result, noise; also --describe, split arguments and non-UTF-8 locale variables) are run through the binary compiled from /repo/src/bin/any.rs; stdout must equal what the harness prints from library results and the exit status must be 0; an exact fraction must be printed in lowest terms with the sign in the numerator; the 12-digit rendering must also satisfy C08's oracle.",
          "Diagnostics are rendered by the harness with the same codespan-reporting library; colours are disabled in the child (TERM=dumb, NO_COLOR).",
          "DESIGN.md 4/C19"),
 }
